@@ -92,8 +92,8 @@ class Vector(object):
                       check_bounds=bool(dct["check_bounds"]),
                       check_hitbounds=bool(dct["check_hitbounds"]),
                       accept_nan=bool(dct["accept_nan"]))
-        vect._hitbounds = bool(dct["hitbounds"])
         vect.values = values
+        vect._hitbounds = bool(dct["hitbounds"])
 
         return vect
 
